@@ -184,6 +184,10 @@ class G:
         usebool = r.random() < 0.35
         if usebool:
             keys = r.sample(["true", "false"], r.randint(1, 2))
+            if r.random() < 0.4:
+                # arms a boolean can never name: they must never be taken, wherever they sit
+                for extra in r.sample(["a", "other", "True", "FALSE", "0", "1", "yes"], r.randint(1, 2)):
+                    keys.insert(r.randint(0, len(keys)), extra)
             val = self.expr("bool", d - 1)
         else:
             val = ("str", r.choice(keys + ["zz"])) if r.random() < 0.6 else self.expr("str", d - 1)
@@ -191,7 +195,9 @@ class G:
         for k in keys:
             # arms that are not selected may fail: they must not be evaluated
             arms.append((k, self.expr(T, d - 1)))
-        default = self.expr(T, d - 1) if (r.random() < 0.7 or len(keys) < 2) else None
+        default = self.expr(T, d - 1) if (r.random() < 0.7 or (len(keys) < 2 and not usebool) or (usebool and not {"true", "false"} <= set(keys))) else None
+        if usebool and r.random() < 0.08:
+            default = None  # an unhandled case without a default must fail the build
         return ("select", val, default, arms)
 
     def mk_sel(self, T, d):
@@ -540,6 +546,50 @@ class G:
         name = self.fresh("f")
         return ("let", name, ("func", params, body)), ("func", ats, ret)
 
+    def stmt_record_func(self, stmts):
+        """a function (or map callback) whose untyped parameter is used as a record: several different fields,
+        nested fields, selected more than once - appends the definition and a use to stmts"""
+        r = self.r
+        self.use("record-func")
+        T = r.choice(["int", "float", "str"])
+        U = self.rand_simple()
+        names = r.sample(FIELD_POOL, 4)
+        inner = ("tuple", ((names[0], T), (names[1], T)))
+        tt = ("tuple", ((names[0], T), (names[1], T), (names[2], U), (names[3], inner)))
+        p = self.fresh("p")
+        sel = lambda base, n: ("sel", base, ("f", n))
+        P = ("sym", p)
+        a, b, c = sel(P, names[0]), sel(P, names[1]), sel(P, names[2])
+        na, nb = sel(sel(P, names[3]), names[0]), sel(sel(P, names[3]), names[1])
+        op = "+" if T == "str" else r.choice(["+", "+", "-", "*"])
+        k = r.randrange(7)
+        if k == 0:
+            body, ret = ("bin", op, a, b), T
+        elif k == 1:
+            body, ret = ("list", [a, b]), ("list", T)
+        elif k == 2:
+            body, ret = ("tuple", [("x", a), ("y", c)]), ("tuple", (("x", T), ("y", U)))
+        elif k == 3:
+            body, ret = ("bin", op, ("bin", op, a, b), a), T
+        elif k == 4:
+            body, ret = ("bin", op, na, nb), T
+        elif k == 5:
+            body, ret = ("bin", op, na, b), T
+        else:
+            body, ret = ("bin", "==", c, c), "bool"
+        arg = self.literal(tt) if r.random() < 0.6 else self.expr(tt, 1, nobad=True)
+        if r.random() < 0.7:
+            f = self.fresh("f")
+            stmts.append(("let", f, ("func", [p], body)))
+            self.scope.append((f, ("func", (tt,), ret)))
+            v = self.fresh()
+            stmts.append(("let", v, ("call", ("sym", f), [arg])))
+            self.scope.append((v, ret))
+        else:
+            v = self.fresh()
+            stmts.append(("let", v, ("map", ("func", [p], body), ("list", [arg]))))
+            self.scope.append((v, ("list", ret)))
+
     def stmt_module(self, d):
         r = self.r
         self.use("module")
@@ -620,7 +670,10 @@ class G:
                 self.use("stmt-expr")
                 stmts.append(("expr", self.expr(T, d)))
                 continue
-            elif x < 0.40:
+            elif x < 0.39:
+                self.stmt_record_func(stmts)
+                continue
+            elif x < 0.43:
                 # tuple holding a function: exercises calls through tuple fields
                 self.use("tuple-with-func")
                 p = self.fresh("p")
